@@ -17,17 +17,18 @@ class Query:
     def __init__(s, name, harness, mode='seq', defs=None, srcs=(), T=2, K=4, unwind=8, unwindset=None, opt='O1',
                  shift_check=False, spin=None, tiers=('quick', 'thorough'), timeout=300, mem_gb=16, solver='default',
                  object_bits=None, validate=20, note='', threads_tls=None, cxxflags=(), expect_known=None,
-                 extra_cbmc=(), hook=True, depth=None, unwind_fn=None):
+                 extra_cbmc=(), hook=True, depth=None, unwind_fn=None, coro_style='goto'):
         s.name = name; s.harness = harness; s.mode = mode; s.defs = dict(defs or {}); s.srcs = list(srcs)
         s.T = T; s.K = K; s.unwind = unwind; s.unwindset = dict(unwindset or {}); s.opt = opt
         s.shift_check = shift_check; s.spin = dict(spin or {}); s.tiers = tiers; s.timeout = timeout
         s.mem_gb = mem_gb; s.solver = solver; s.object_bits = object_bits; s.validate = validate; s.note = note
         s.threads_tls = threads_tls; s.cxxflags = list(cxxflags); s.expect_known = expect_known
         s.extra_cbmc = list(extra_cbmc); s.hook = hook; s.depth = depth
+        s.coro_style = coro_style            # 'guard': clones re-walk their CFG with execution switched off; 'goto': clones jump to the resume label
         s.unwind_fn = dict(unwind_fn or {})   # {regex over loop id (function.N): bound}: resolved to --unwindset via cbmc --show-loops
     def bounds(s):
         b = {'mode': s.mode, 'unwind': s.unwind, 'unwindset': s.unwindset, 'unwind_by_function': s.unwind_fn, 'defines': s.defs, 'ir_opt': s.opt}
-        if s.mode == 'coro': b.update(threads=s.T, segments_K=s.K, context_switches_max=s.K - 1, spin_cut=s.spin)
+        if s.mode == 'coro': b.update(coroutine_encoding=s.coro_style, threads=s.T, segments_K=s.K, context_switches_max=s.K - 1, spin_cut=s.spin)
         return b
 
 def run(cmd, cwd=None, timeout=None, env=None, mem_gb=None, stdout=subprocess.PIPE, stderr=subprocess.STDOUT):
@@ -94,7 +95,7 @@ def translate(q, ll, wd, roots):
     gen = os.path.join(wd, 'gen.c'); rep = os.path.join(wd, 'ir2c.json')
     nt = q.threads_tls if q.threads_tls else (q.T + 1 if q.mode == 'coro' else 1)
     cmd = [sys.executable, os.path.join(IR2C, 'ir2c.py'), ll, gen, '--roots', ','.join(roots), '--threads', str(nt), '--report', rep]
-    if q.mode == 'coro': cmd.append('--coro')
+    if q.mode == 'coro': cmd += ['--coro', '--coro-style', os.environ.get('VERIF_CORO_STYLE', q.coro_style)]
     if q.shift_check: cmd.append('--shift-check')
     for rx, U in q.spin.items(): cmd += ['--spin', '%s=%d' % (rx, U)]
     rc, o, _ = run(cmd, cwd=wd, timeout=600)
@@ -126,7 +127,7 @@ def build_native(q, wd, flags, hook_available):
     cmd = GXX_BASE + defs_flags(q.defs) + defs_flags(dd) + q.cxxflags
     if use_hook: cmd.append('-D' + GUARD)
     cmd += [os.path.join(VERIF, 'harness', q.harness)] + [os.path.join(REPO, 'src', x) for x in q.srcs]
-    cmd += [os.path.join(VERIF, 'rt', 'native_rt.cpp'), '-o', ec]
+    cmd += [os.path.join(VERIF, 'rt', 'native_rt.cpp'), '-o', ec, '-latomic']
     rc, o, _ = run(cmd, cwd=wd, timeout=1800)
     if rc != 0: raise Broken('g++ build of the real harness failed:\n' + o[-4000:])
     return eb, ec, use_hook
@@ -285,9 +286,10 @@ def run_query(q, tier, seed, scratch_root, hook_available=False, keep=False, is_
         if not res:
             raise Broken('cbmc produced no verdict (rc=%s, query %s):\n%s' % (rc, q.name, out[-2500:]))
         witness = [r for r in res if 'VERIF-WITNESS' in r['desc']]
-        if not witness or any(w['st'] != 'FAILURE' for w in witness):
-            raise Broken('witness assertion not reachable: the harness is vacuous (query %s)' % q.name)
         failed = [r for r in res if r['st'] != 'SUCCESS' and 'VERIF-WITNESS' not in r['desc']]
+        if not witness or any(w['st'] != 'FAILURE' for w in witness):
+            uf = [r['id'] for r in failed if '.unwind.' in r['id'] or 'unwinding' in r['desc']]
+            raise Broken('witness assertion not reachable: the harness is vacuous (query %s)%s' % (q.name, (' - unwinding bound too small: ' + '; '.join(uf[:6])) if uf else ''))
         R['properties_checked'] = len(res) - len(witness)
         R['assertions'] = sorted(set(r['desc'] for r in res if r['id'].split('.')[-2:-1] == ['assertion'] and 'VERIF-WITNESS' not in r['desc']))[:60]
         unwind_fail = [r for r in failed if 'unwinding assertion' in r['desc'] or r['id'].find('.unwind.') >= 0 or 'recursion unwinding' in r['desc']]
